@@ -67,7 +67,9 @@ package tree
 //@   ensures [C01,C05] found: result != nil ==> allocated(result) && len(result.handlers) > 0 && ctx.Path == "" && result.root == n.root
 //@   ensures [C01,C02] restore-path: result == nil ==> ctx.Path == old(ctx.Path)
 //@   ensures [C01] no-leftover: result == nil ==> (forall x string :: in(x, ctx.params) ==> old(in(x, ctx.params)) && ctx.params[x] == old(ctx.params[x]))
+//@   ensures [C01,C13,C20] nothing-lost: result == nil ==> (forall x string :: old(in(x, ctx.params)) ==> in(x, ctx.params) && ctx.params[x] == old(ctx.params[x]))
 //@   inv 1 [C05] idx: 0 <= i
+//@   inv 1 [C01,C13,C20] nothing-lost: forall x string :: old(in(x, ctx.params)) ==> in(x, ctx.params) && ctx.params[x] == old(ctx.params[x])
 //@   inv 1 [C01,C02] path: ctx.Path == old(ctx.Path)
 //@   inv 1 [C01,C02] no-leftover: forall x string :: in(x, ctx.params) ==> old(in(x, ctx.params)) && ctx.params[x] == old(ctx.params[x])
 //
